@@ -30,7 +30,7 @@ var c04 = core.Register(&core.Prop{
 	Shards: func(tier string) int { return pickTier(tier, 8, 16) },
 	Floors: func(c map[string]int64, tier string) []string {
 		var out []string
-		for _, k := range []string{"op:+", "op:-", "op:*", "op:/", "op:%", "rounded_results", "exact_ties", "chain_cases", "minimal_parentheses_chains", "disturbers_evaluated", "data_float_cases", "data_values_below_top_level", "data_int_cases", "handback_exact_domain", "handback_ulp_domain", "host_received"} {
+		for _, k := range []string{"op:+", "op:-", "op:*", "op:/", "op:%", "rounded_results", "exact_ties", "chain_cases", "minimal_parentheses_chains", "disturbers_evaluated", "data_float_cases", "data_values_below_top_level", "operands_entering_as_text", "data_int_cases", "handback_exact_domain", "handback_ulp_domain", "host_received"} {
 			if c[k] == 0 {
 				out = append(out, "coverage floor: no "+k)
 			}
@@ -42,7 +42,9 @@ var c04 = core.Register(&core.Prop{
 // AExpr is an arithmetic expression over decimal literals.
 type AExpr struct {
 	Lit string `json:"lit,omitempty"` // signed decimal text
-	Op  string `json:"op,omitempty"`
+	// Text: the operand enters as text through toFloat('...') (decimal numbers kept as strings by the host)
+	Text bool   `json:"text,omitempty"`
+	Op   string `json:"op,omitempty"`
 	L   *AExpr `json:"l,omitempty"`
 	R   *AExpr `json:"r,omitempty"`
 }
@@ -66,6 +68,9 @@ func (e *AExpr) MinSrc() string {
 
 func (e *AExpr) Src() string {
 	if e.Op == "" {
+		if e.Text {
+			return "toFloat('" + strings.ReplaceAll(e.Lit, "_", "") + "')"
+		}
 		if strings.HasPrefix(e.Lit, "-") {
 			return "(" + e.Lit + ")"
 		}
@@ -568,6 +573,13 @@ func runC04(w *core.W) {
 	// 1. random pairs
 	for i, n := 0, w.Pick(120000, 1500000); i < n; i++ {
 		e := &AExpr{Op: arithOps[i%5], L: &AExpr{Lit: randOperand(r)}, R: &AExpr{Lit: randOperand(r)}}
+		if i%11 == 3 {
+			e.L.Text = true
+			w.Count("operands_entering_as_text")
+		} else if i%11 == 7 {
+			e.R.Text = true
+			w.Count("operands_entering_as_text")
+		}
 		if i%7 == 0 {
 			c04Disturb(w, i/7)
 		}
